@@ -15,7 +15,10 @@ LEADS = [(), (), (1,), (3,), (2, 2), (1, 2, 1), (2, 1, 2), (0,), (2, 0), (0, 2, 
 
 _INT_CELL = st.one_of(st.just(0), st.just(0), st.integers(0, 6), st.integers(0, 2**40))
 _FLT_CELL = st.one_of(st.just(0.0), st.just(0.0), st.integers(0, 40).map(lambda k: k * 0.25),
-                      st.floats(min_value=1e-6, max_value=1e9, allow_nan=False))
+                      st.floats(min_value=1e-6, max_value=1e9, allow_nan=False),
+                      # weights / expected counts far beyond the int64 range (all such floats are integral)
+                      st.sampled_from([3e18, 1e19, 2.0 ** 70, 1e25, 1e100, 2.0 ** 63, 4503599627370497.0]))
+_NARROW = {"uint8": 255, "int16": 32767, "uint16": 65535, "int32": 2**31 - 1}
 ZERO_MODES = ["none", "none", "none", "row0", "row1", "col0", "col1", "all", "diag", "anti"]
 
 
@@ -23,13 +26,21 @@ ZERO_MODES = ["none", "none", "none", "row0", "row1", "col0", "col1", "all", "di
 def _cases(draw):
     lead = draw(st.sampled_from(LEADS))
     n = gen.shape_size(lead)
-    dtype = draw(st.sampled_from(["int", "float"]))
-    cell = _INT_CELL if dtype == "int" else _FLT_CELL
+    dtype = draw(st.sampled_from(["int", "int", "float", "float", "uint8", "int16", "uint16", "int32", "float32"]))
+    if dtype in _NARROW:
+        # counts stored in a narrow integer dtype; single cells up to its maximum, so that sums
+        # of two cells (and the trace) exceed it while every cell fits
+        top_ = _NARROW[dtype]
+        cell = st.one_of(st.just(0), st.integers(0, 6), st.integers(0, top_), st.integers(top_ // 2, top_))
+    elif dtype == "float32":
+        cell = st.one_of(st.just(0.0), st.integers(0, 4000).map(lambda k: k * 0.25))  # exact in float32
+    else:
+        cell = _INT_CELL if dtype == "int" else _FLT_CELL
     mats = []
     for _ in range(n):
         m = draw(st.lists(cell, min_size=4, max_size=4))
         z = draw(st.sampled_from(ZERO_MODES))
-        zero = 0 if dtype == "int" else 0.0
+        zero = 0.0 if dtype in ("float", "float32") else 0
         idx = {"none": [], "row0": [0, 1], "row1": [2, 3], "col0": [0, 2], "col1": [1, 3],
                "all": [0, 1, 2, 3], "diag": [0, 3], "anti": [1, 2]}[z]
         for i in idx:
@@ -63,20 +74,22 @@ CI = {"tpr_ci": ("tpr", "fnr_ci"), "fnr_ci": ("fnr", "tpr_ci"), "tnr_ci": ("tnr"
 CI_ALIAS = {"tar_ci": "tpr_ci", "frr_ci": "fnr_ci", "trr_ci": "tnr_ci", "far_ci": "fpr_ci"}
 
 
-def _close(a, b, exact):
+def _close(a, b, exact, rt=1e-12):
     if math.isnan(a) or math.isnan(b):
         return math.isnan(a) and math.isnan(b)
     if exact:
         return a == b
-    return abs(a - b) <= 1e-12 * max(abs(a), abs(b), 1e-300)
+    return abs(a - b) <= rt * max(abs(a), abs(b), 1e-300)
 
 
 def check(case):
     from score_analysis import ConfusionMatrix, metrics
 
     lead = tuple(case["lead"])
-    exact = case["dtype"] == "int"
-    dt = np.int64 if exact else np.float64
+    exact = case["dtype"] not in ("float", "float32")
+    # single-precision matrices give single-precision rates
+    rt, ct = (2e-6, 1e-5) if case["dtype"] == "float32" else (1e-12, 1e-9)
+    dt = {"int": np.int64, "float": np.float64}.get(case["dtype"]) or np.dtype(case["dtype"])
     mats = case["mats"]
     M = np.asarray(mats, dtype=dt).reshape(lead + (2, 2))
     M0 = M.copy()
@@ -123,9 +136,9 @@ def check(case):
         ref = dict(tp=tp, fn=fn, fp=fp, tn=tn, p=tp + fn, n=fp + tn, top=tp + fp, ton=fn + tn,
                    pop=tp + fn + fp + tn)
         for k, v in ref.items():
-            require(_close(float(cnt[k][i]), float(v), exact), "alg:count", f"{k} {ctx}: {cnt[k][i]!r}")
-        require(_close(cnt["p"][i] + cnt["n"][i], cnt["pop"][i], exact)
-                and _close(cnt["top"][i] + cnt["ton"][i], cnt["pop"][i], exact),
+            require(_close(float(cnt[k][i]), float(v), exact, rt), "alg:count", f"{k} {ctx}: {cnt[k][i]!r}")
+        require(_close(cnt["p"][i] + cnt["n"][i], cnt["pop"][i], exact, rt)
+                and _close(cnt["top"][i] + cnt["ton"][i], cnt["pop"][i], exact, rt),
                 "alg:population", ctx)
         for k, (num, den) in RATES.items():
             d = den(tp, fn, fp, tn)
@@ -136,7 +149,7 @@ def check(case):
             else:
                 nonzero_den = True
                 require(not math.isnan(got), "alg:nan-locus", f"{k} {ctx}: NaN with denominator {d!r}")
-                require(_close(got, num(tp, fn, fp, tn) / d, exact), "alg:definition",
+                require(_close(got, num(tp, fn, fp, tn) / d, exact, rt), "alg:definition",
                         f"{k} {ctx}: got {got!r} expected {num(tp, fn, fp, tn) / d!r}")
                 require(0.0 <= got <= 1.0, "alg:range", f"{k} {ctx}: {got!r}")
         for k, base in COMPLEMENT.items():
@@ -146,7 +159,7 @@ def check(case):
                 require(0.0 <= got <= 1.0, "alg:range", f"{k} {ctx}: {got!r}")
         for a, b in PAIRS:
             s = float(R[a][i]) + float(R[b][i])
-            require(math.isnan(s) == math.isnan(float(R[a][i])) and (math.isnan(s) or abs(s - 1) <= 1e-12),
+            require(math.isnan(s) == math.isnan(float(R[a][i])) and (math.isnan(s) or abs(s - 1) <= rt),
                     "alg:complement", f"{a}+{b} {ctx}: {s!r}")
         # confidence intervals
         for k, (rk, mirror) in CI.items():
@@ -159,14 +172,14 @@ def check(case):
                     continue
                 require(not (math.isnan(lo) or math.isnan(hi)), "ci:nan-locus", f"{k} {ctx}")
                 hw = z * math.sqrt(max(p * (1 - p), 0.0) / nobs)
-                tol = 1e-9 * max(hw, abs(p), 1e-300) + 1e-15
+                tol = ct * max(hw, abs(p), 1e-300) + 1e-15
                 require(abs((lo + hi) / 2 - p) <= tol, "ci:centre", f"{k} {ctx}: {lo!r},{hi!r} p={p!r}")
                 require(abs((hi - lo) / 2 - hw) <= tol, "ci:half-width",
                         f"{k} {ctx}: half width {(hi - lo) / 2!r} expected {hw!r}")
             # nesting: a1 < a2, so the a2 interval lies inside the a1 interval
             if not math.isnan(p):
                 w, n_ = cis[k][0][i], cis[k][1][i]
-                eps = 1e-12 + 1e-9 * abs(w[1] - w[0])
+                eps = rt + ct * abs(w[1] - w[0])
                 require(w[0] <= n_[0] + eps and n_[1] <= w[1] + eps, "ci:nesting",
                         f"{k} {ctx}: alpha={a1!r} {w.tolist()} alpha={a2!r} {n_.tolist()}")
                 # mirroring
@@ -174,7 +187,7 @@ def check(case):
                 # the complementary rate is a rounded 1-p: for p within 1e-k of 0 or 1 the product
                 # p(1-p), and with it the width, is only accurate to about 1e-(16-k) relative
                 q = max(min(p, 1 - p), 1e-300)
-                mt = 1e-12 + abs(w[1] - w[0]) * (1e-9 + 4e-16 / q)
+                mt = rt + abs(w[1] - w[0]) * (ct + 4e-16 / q)
                 require(abs(w[0] - (1 - mi[1])) <= mt and abs(w[1] - (1 - mi[0])) <= mt,
                         "ci:mirror", f"{k} vs {mirror} {ctx}: {w.tolist()} {mi.tolist()}")
     require(np.array_equal(M, M0), "alg:mutated-input", "")
@@ -199,4 +212,4 @@ PROP = Prop(
     assumptions=["normal quantile reference: statistics.NormalDist (stdlib)"],
 )
 
-RULE_EXTRA = ('alphas down to 1e-300 and up to 1-1e-12 with the reference quantile taken through the lower tail; mirror tolerance scaled by the rounding of 1-p.')
+RULE_EXTRA = ('float cells up to 1e100 (beyond the int64 range); matrices stored as uint8 / int16 / uint16 / int32 with cells up to the dtype maximum (row, column and diagonal sums beyond it) and as float32; alphas down to 1e-300 and up to 1-1e-12 with the reference quantile taken through the lower tail; mirror tolerance scaled by the rounding of 1-p.')
